@@ -193,6 +193,9 @@ class Lib:
             recv = int(recv)
         elif isinstance(recv, Opaque):
             k = "opaque:" + recv.tag
+        elif hasattr(recv, "sym_method"):
+            yield from recv.sym_method(ip, st, name, args, kwargs)
+            return
         f = METHODS.get((k, name))
         if f is None:
             if k in ("int", "bool", "str", "bytes", "pylist", "pydict", "tuple", "jdict", "jlist", "symlist", "none"):
@@ -331,6 +334,9 @@ def builtin(name):
 @builtin("len")
 def _len(ip, st, args, kwargs):
     (v,) = args
+    if hasattr(v, "sym_len"):
+        yield from v.sym_len(ip, st)
+        return
     if isinstance(v, JVal):
         if ip.spec:
             raise Unsupported("spec: len of raw JSON")
@@ -374,6 +380,9 @@ def _type(ip, st, args, kwargs):
         return
     if isinstance(v, Obj):
         yield st, v.cls
+        return
+    if isinstance(v, Opaque):
+        yield st, Opaque("type-of:" + v.tag)       # some type that equals none of the builtin type objects
         return
     k = kind_of(v)
     if isinstance(v, enum.Enum):
@@ -587,7 +596,15 @@ def list_of_map(ip, st, lm):
         yield from MAP_HOOKS[name](ip, st, lm)
         return
     if isinstance(xs, JVal):
-        raise Unsupported("map over raw JSON")
+        done = False
+        for st1, lst in narrow(ip, st, xs):
+            if isinstance(lst, JList):
+                yield from list_of_map(ip, st1, LazyMap(f, lst))
+            elif lst is None or kind_of(lst) in ("int", "bool") or isinstance(lst, Opaque):
+                yield st1, Raise(mk_exc(st1, "TypeError", "object is not iterable"))
+            else:
+                raise Unsupported("map over a JSON %r" % (lst,))
+        return
     if isinstance(xs, JList):
         n = V.j_llen(xs.term)
         def el(i): return JVal(V.j_lget(xs.term, i))
@@ -616,6 +633,10 @@ def list_of_map(ip, st, lm):
         if ip.feasible(st, tm.Eq(n, tm.Int(0))):
             st.assume(tm.Eq(n, tm.Int(0)))
             yield st, st.new_list([])
+        return
+    if all(type(r).__name__ == "SortedView" for _, r in normal):
+        from spec.sorting import map_of_sorted
+        yield st, map_of_sorted(ip, st, lm, normal, n, probe, i)
         return
     kinds = {kind_of(r) for _, r in normal}
     if len(kinds) != 1 or list(kinds)[0] not in ("int", "str", "bytes", "bool"):
